@@ -49,6 +49,19 @@ func c10Bases(seed int64, thorough bool) []*e2eCase {
 		mk(true, false, 2, false, false, []int64{9000}, nil)
 		mk(false, false, 3, false, false, []int64{9000, 10}, nil)
 		mk(true, false, 1, false, false, []int64{2500}, nil)
+		// long transfers: many DATA / ack messages, the ack window full, between files
+		mk(true, false, 4, false, false, []int64{40000, 30000, 100}, other)
+		mk(false, true, 4, false, true, []int64{25000, 0, 18000}, []e2eNode{{Rel: e2eName(0, 0), Size: 30000}, {Rel: e2eName(0, 2), Size: 9000}})
+		mk(false, true, 3, true, false, []int64{20000, 15000}, other)
+		mk(true, true, 2, true, true, []int64{8000, 8000, 8000}, other)
+		mk(false, false, 1, false, false, []int64{6000, 3000}, nil)
+		for i := range res[len(res)-5:] {
+			c := res[len(res)-5+i]
+			c.Opts.Compress = []int{2, 0, 1, 2, 0}[i] // no / auto / yes
+			if i == 3 {
+				c.Opts.Escape = true
+			}
+		}
 	}
 	return res
 }
